@@ -111,6 +111,38 @@ def unitary(rs, d):
     return q * ph
 
 
+def perm_unitary(rs, d):
+    """axis-aligned 'unitary': a permutation matrix (objects built from it are DIAGONAL in the computational basis, so a violation is
+    visible on the diagonal of the density / POVM-element matrix -- the kind of object the upstream examples use)"""
+    P = np.zeros((d, d), dtype=complex)
+    for i, j in enumerate(rs.permutation(d)):
+        P[i, int(j)] = 1.0
+    return P
+
+
+def aligned_kraus_set(rs, d, r):
+    """Kraus operators sqrt(w_j) D_j P_j (P_j permutation, D_j diagonal of phases in {1,-1,i,-i}): Pauli-like channels; their Choi
+    matrices have many exactly-zero diagonal entries"""
+    w = rs.uniform(0.2, 1.0, size=r); w /= w.sum()
+    Ks = []
+    for j in range(r):
+        D = np.diag(np.array([1, -1, 1j, -1j])[rs.randint(4, size=d)])
+        Ks.append(np.sqrt(w[j]) * (D @ perm_unitary(rs, d)))
+    return Ks
+
+
+def null_noncp_hs(cs, rs):
+    """HS matrix (w.r.t. cs's basis, which must be a flag basis) of a TRACE-ANNIHILATING Hermiticity-preserving map R != 0, scaled so that the
+    smallest eigenvalue of its Choi matrix is -1: first row zero (weight Tr R(I) = 0), hence Choi trace 0, hence not completely positive"""
+    n = cs.d * cs.d
+    R = rs.normal(size=(n, n)); R[0, :] = 0.0
+    if rs.rand() < 0.5:                       # sparse variant: one diagonal entry, like diag(0, 1, 0, 0)
+        R = np.zeros((n, n)); R[1 + int(rs.randint(n - 1)), 1 + int(rs.randint(n - 1))] = 1.0
+    C = sum(R[a, b] * np.kron(cs.B[a], cs.B[b].conj()) for a in range(n) for b in range(n))
+    lam = np.linalg.eigvalsh((C + C.conj().T) / 2)[0]
+    return np.ascontiguousarray(R / abs(lam), dtype=np.float64)
+
+
 def inv_sqrt(S):
     w, U = np.linalg.eigh(S)
     return (U * (w ** -0.5)) @ U.conj().T
@@ -148,9 +180,11 @@ def null_vector(C):
 
 
 # ----------------------------------------------------------------------------------------------- generators
-def gen_state(cs, cls, eps, rs):
+def gen_state(cs, cls, eps, rs, aligned=False):
     d = cs.d
-    if cs.kind == "comp":                       # real symmetric density matrices (the basis is not Hermitian)
+    if aligned:
+        U = perm_unitary(rs, d)
+    elif cs.kind == "comp":                     # real symmetric density matrices (the basis is not Hermitian)
         q, _ = np.linalg.qr(rs.normal(size=(d, d)))
         U = q.astype(complex)
     else:
@@ -176,12 +210,12 @@ def gen_state(cs, cls, eps, rs):
     return coef(cs, rho)
 
 
-def gen_povm(cs, cls, eps, rs, m):
+def gen_povm(cs, cls, eps, rs, m, aligned=False):
     d = cs.d
     real = cs.kind == "comp"
     if cls in ("projective", "eig_violate"):
         m = min(m, d)
-        U = unitary(rs, d) if not real else np.linalg.qr(rs.normal(size=(d, d)))[0].astype(complex)
+        U = perm_unitary(rs, d) if aligned else (unitary(rs, d) if not real else np.linalg.qr(rs.normal(size=(d, d)))[0].astype(complex))
         gs = groups(rs, d, m)
         Es = [sum(np.outer(U[:, i], U[:, i].conj()) for i in g) for g in gs]
         if cls == "eig_violate":                # a RANDOM element gets the negative eigenvalue -eps (another one +eps: the sum stays I)
@@ -206,6 +240,13 @@ def gen_povm(cs, cls, eps, rs, m):
         Es = [R @ A @ R for A in As]
         if cls == "sum_diag":
             i = int(rs.randint(d)); Es[0] = Es[0].copy(); Es[0][i, i] += eps
+        elif cls == "null_violate":             # a TRACELESS element eps*H (H Hermitian, traceless, smallest eigenvalue -1) inserted at a random position,
+            H = cgauss(rs, d, d) if not real else rs.normal(size=(d, d)).astype(complex)      # compensated in a full-rank element: the sum stays I
+            if aligned:
+                H = np.diag(rs.normal(size=d)).astype(complex)
+            H = H + H.conj().T; H = H - np.trace(H) / d * np.eye(d); H = H / abs(np.linalg.eigvalsh(H)[0])
+            x1 = int(rs.randint(len(Es))); Es[x1] = Es[x1] - eps * H
+            Es.insert(int(rs.randint(len(Es) + 1)), eps * H)
         elif cls == "sum_offdiag":
             i, j = [int(x) for x in rs.choice(d, size=2, replace=False)]
             ph = 1.0 if real else np.exp(1j * rs.uniform(0, 2 * np.pi))
@@ -229,15 +270,21 @@ def perturb_tp(cs, hs, S, eps, rs):
     return hs_in_basis(cs, S2)
 
 
-def perturb_cp(cs, S, eps):
+def perturb_cp(cs, S, eps, rs_aligned=None):
+    """subtract eps*|phi><phi| from the Choi matrix, phi a null vector; aligned variant: phi = a computational basis vector e_k with
+    Choi[k,k] = 0 exactly (the violation then sits on the DIAGONAL of the Choi matrix)"""
     d = cs.d
     C = reshuffle(S, d)
     phi = null_vector(C)
+    if rs_aligned is not None:
+        zeros = [k for k in range(d * d) if abs(C[k, k]) < 1e-14 and np.abs(C[k, :]).max() < 1e-14]
+        if zeros:
+            phi = np.zeros(d * d, dtype=complex); phi[zeros[int(rs_aligned.randint(len(zeros)))]] = 1.0
     C2 = C - eps * np.outer(phi, phi.conj())
     return hs_in_basis(cs, reshuffle(C2, d))
 
 
-def gen_gate(cs, cls, eps, rs):
+def gen_gate(cs, cls, eps, rs, aligned=False):
     d = cs.d
     if cls in ("interior", "tp_violate"):
         r = d * d
@@ -247,27 +294,27 @@ def gen_gate(cs, cls, eps, rs):
         r = int(rs.randint(2, max(3, d + 1)))
     else:                                      # cp_violate: needs a kernel
         r = int(rs.randint(1, d * d))
-    S = scb_of(kraus_set(rs, d, r))
+    S = scb_of(aligned_kraus_set(rs, d, r) if aligned else kraus_set(rs, d, r))
     hs = hs_in_basis(cs, S)
     if cls == "tp_violate":
         hs = perturb_tp(cs, hs, S, eps, rs)
     elif cls == "cp_violate":
-        hs = perturb_cp(cs, S, eps)
+        hs = perturb_cp(cs, S, eps, rs if aligned else None)
     return hs
 
 
-def gen_mprocess(cs, cls, eps, rs, m):
+def gen_mprocess(cs, cls, eps, rs, m, aligned=False):
     d = cs.d
     if cls == "luders":
         m = min(m, d)
-        U = unitary(rs, d); gs = groups(rs, d, m)
+        U = perm_unitary(rs, d) if aligned else unitary(rs, d); gs = groups(rs, d, m)
         sets = [[sum(np.outer(U[:, i], U[:, i].conj()) for i in g)] for g in gs]
     else:
         if cls in ("interior", "tp_violate"):
             rk = [d * d] * m
         else:
             rk = [int(rs.randint(1, 3)) for _ in range(m)]
-        Ks = kraus_set(rs, d, sum(rk))
+        Ks = aligned_kraus_set(rs, d, sum(rk)) if aligned else kraus_set(rs, d, sum(rk))
         sets, p = [], 0
         for r in rk:
             sets.append(Ks[p:p + r]); p += r
@@ -277,17 +324,23 @@ def gen_mprocess(cs, cls, eps, rs, m):
     if cls == "tp_violate":
         hss[x0] = hss[x0].copy(); hss[x0][0, int(rs.randint(d * d))] += eps
     elif cls == "cp_violate":
-        hss[x0] = perturb_cp(cs, Ss[x0], eps)
+        hss[x0] = perturb_cp(cs, Ss[x0], eps, rs if aligned else None)
+    elif cls == "null_violate":                 # an outcome of ZERO (or tiny: <= 1e-9) weight that is not completely positive: eps * R, Tr R(I) = 0,
+        hz = eps * null_noncp_hs(cs, rs)        # smallest Choi eigenvalue of R = -1; the other outcomes stay CP and the sum stays trace preserving
+        w = [0.0, 0.0, 1e-9][int(rs.randint(3))]
+        if w:
+            hz[0, 0] = w; hss[x0] = hss[x0].copy(); hss[x0][0, 0] -= w
+        hss.insert(int(rs.randint(len(hss) + 1)), hz)
     return hss
 
 
 CLASSES = {
     "state": ["interior", "pure", "rankdef", "tr_violate", "eig_violate"],
-    "povm": ["interior", "projective", "rankdef", "sum_diag", "sum_offdiag", "eig_violate"],
+    "povm": ["interior", "projective", "rankdef", "sum_diag", "sum_offdiag", "eig_violate", "null_violate"],
     "gate": ["interior", "unitary", "rankdef", "tp_violate", "cp_violate"],
-    "mprocess": ["interior", "luders", "rankdef", "tp_violate", "cp_violate"],
+    "mprocess": ["interior", "luders", "rankdef", "tp_violate", "cp_violate", "null_violate"],
 }
-VIOLATE = {"tr_violate", "eig_violate", "sum_diag", "sum_offdiag", "tp_violate", "cp_violate", "herm_violate"}
+VIOLATE = {"tr_violate", "eig_violate", "sum_diag", "sum_offdiag", "tp_violate", "cp_violate", "herm_violate", "null_violate"}
 KS = [0.1, 0.4, 1.7, 3.0, 10.0, 100.0, 1e4, "O1"]     # 0.4 and 1.7 sit just outside the ambiguity band [0.5, 1.5]: a threshold off by a factor 2 is seen
 
 
@@ -306,13 +359,14 @@ def gen_data(cs, case):
     rs = np.random.RandomState(case["seed"] % (2 ** 32))
     eps = case_eps(case)
     t = case["type"]
+    al = bool(case.get("aligned", False))
     if t == "state":
-        return gen_state(cs, case["cls"], eps, rs)
+        return gen_state(cs, case["cls"], eps, rs, al)
     if t == "povm":
-        return gen_povm(cs, case["cls"], eps, rs, case["m"])
+        return gen_povm(cs, case["cls"], eps, rs, case["m"], al)
     if t == "gate":
-        return gen_gate(cs, case["cls"], eps, rs)
-    return gen_mprocess(cs, case["cls"], eps, rs, case["m"])
+        return gen_gate(cs, case["cls"], eps, rs, al)
+    return gen_mprocess(cs, case["cls"], eps, rs, case["m"], al)
 
 
 # ----------------------------------------------------------------------------------------------- implementation / model adapters
@@ -548,7 +602,8 @@ def make_cases(ctx, t, plan):
             case = {"type": t, "shape": shape, "basis": kind, "cls": cls, "atol": a, "atol2": a2,
                     "k": KSW[rng.randrange(len(KSW))] if cls in VIOLATE else None,
                     "sign": rng.choice([1, 1, -1]) if cls in ("tr_violate", "sum_diag", "tp_violate") else 1,
-                    "m": rng.randint(2, 5), "seed": rng.randrange(2 ** 31)}
+                    "m": rng.randint(2, 5), "seed": rng.randrange(2 ** 31),
+                    "aligned": (i % 3 == 1) and kind != "comp"}     # axis-aligned objects (diagonal in the computational basis / Pauli-like channels)
             cases.append(case)
     return cases
 
@@ -764,31 +819,38 @@ HIST_FNS = {
 
 
 def gen_hist_data(cs, case):
-    """object with trace / identity-sum / first-row defect de AND smallest-eigenvalue defect -di (both signs of de)"""
+    """object with trace / identity-sum / first-row defect de AND smallest-eigenvalue defect -di (both signs of de);
+    case["aligned"]: axis-aligned object (violations visible on the diagonal); case["null"] (instruments): the non-CP outcome has zero weight"""
     rs = np.random.RandomState(case["seed"] % (2 ** 32))
     t, d, de, di = case["type"], cs.d, float(case["de"]), float(case["di"])
+    al = bool(case.get("aligned", False))
     if t == "state":
-        U = unitary(rs, d)
+        U = perm_unitary(rs, d) if al else unitary(rs, d)
         p = np.zeros(d); r = int(rs.randint(1, d))
         p[:r] = rs.uniform(0.2, 1.0, size=r); p *= (1.0 + de + di) / p.sum(); p[d - 1] = -di
         return coef(cs, (U * p) @ U.conj().T)
     if t == "povm":
         m = min(case["m"], d)
-        U = unitary(rs, d); gs = groups(rs, d, m)
+        U = perm_unitary(rs, d) if al else unitary(rs, d); gs = groups(rs, d, m)
         Es = [sum(np.outer(U[:, i], U[:, i].conj()) for i in g) for g in gs]
         x0 = int(rs.randint(m)); x1 = (x0 + 1 + int(rs.randint(m - 1))) % m
         u = U[:, gs[x1][0]]; P = np.outer(u, u.conj())
         Es[x0] = Es[x0] - di * P; Es[x1] = Es[x1] + di * P + de * np.eye(d)
         return [coef(cs, E) for E in Es]
     if t == "gate":
-        S = scb_of(kraus_set(rs, d, int(rs.randint(1, d * d))))
-        hs = perturb_cp(cs, S, di).copy(); hs[0, int(rs.randint(d * d))] += de
+        r = int(rs.randint(1, d * d))
+        S = scb_of(aligned_kraus_set(rs, d, r) if al else kraus_set(rs, d, r))
+        hs = perturb_cp(cs, S, di, rs if al else None).copy(); hs[0, int(rs.randint(d * d))] += de
         return hs
     m = case["m"]
-    Ks = kraus_set(rs, d, m)
+    Ks = aligned_kraus_set(rs, d, m) if al else kraus_set(rs, d, m)
     hss = [hs_in_basis(cs, scb_of([K])) for K in Ks]
     x0 = int(rs.randint(m)); x1 = int(rs.randint(m))
-    hss[x0] = perturb_cp(cs, scb_of([Ks[x0]]), di)
+    if case.get("null"):
+        hss.insert(int(rs.randint(m + 1)), di * null_noncp_hs(cs, rs))
+    else:
+        hss[x0] = perturb_cp(cs, scb_of([Ks[x0]]), di, rs if al else None)
+    x1 = int(rs.randint(len(hss)))
     hss[x1] = hss[x1].copy(); hss[x1][0, int(rs.randint(d * d))] += de
     return hss
 
@@ -897,7 +959,7 @@ def sub_history(ctx):
             for fi in range(nf):
                 steps.append([fi, "none", None, None, order[1]])
             cases.append({"type": t, "shape": shape, "basis": kinds[i % len(kinds)], "de": de, "di": di, "m": rng.randint(2, 3), "seed": rng.randrange(2 ** 31),
-                          "settings0": order[0], "required": i % 3 != 2, "steps": steps})
+                          "settings0": order[0], "required": i % 3 != 2, "steps": steps, "aligned": i % 2 == 1, "null": t == "mprocess" and i % 4 >= 2})
     ctx.sample("history", cases[0]); ctx.run_cases("history", chk_history, cases)
 
 
